@@ -140,7 +140,12 @@ theorem fadt_apply (a a' : EArgs) (o : Opt) (hs : a.n.size = 99) (h : Fadt.apply
       rw [Option.some.injEq] at h; subst h
       exact fadt_gas a o hs hn _ rfl (by split <;> omega)
     · exact absurd h nofun
-  case h_12 => exact absurd h nofun
+  case h_12 hn =>
+    rw [Option.some.injEq] at h; subst h
+    refine ⟨hs, fun i => ?_⟩
+    have : fadtWrite i o = none := by unfold fadtWrite; simp [hn]
+    rw [this]; rfl
+  case h_13 => exact absurd h nofun
 
 /-- **FADT slots**: after the program every slot holds what `slotValue fadtWrite` computes from
     the program text -/
